@@ -13,7 +13,7 @@
 //   c13_linear_write_step   insert / delete from ANY state: the visible facts change exactly at the
 //                           written key, and the write is appended to current_updates
 //                           (=> Inv is preserved)
-//   c13_linear_add_command_step   the real add_command from ANY state: pending writes move into the
+//   c13_linear_add_command_step_third   the real add_command from ANY state: pending writes move into the
 //                           new command unchanged, facts untouched, head/includes/count follow;
 //                           wrong parent is refused without any change  (=> Inv preserved)
 //   c13_linear_revert_step  revert(i) from ANY state (facts.map is ARBITRARY garbage): afterwards
@@ -336,7 +336,7 @@ fn write_step(ntop: usize, nbase: Option<usize>, npend: usize, prefix: bool) -> 
 
 #[kani::proof]
 #[kani::unwind(5)]
-fn c13_linear_write_step_prior() {
+fn c13_linear_write_step_prior_small() {
     let seen = write_step(1, Some(1), 1, false);
     kani::cover!(seen.del_visible, "delete of a visible fact");
     kani::cover!(seen.del_in_prior, "delete of a fact that lives in the prior");
@@ -453,7 +453,7 @@ fn revert_step(shape: &[usize], npend: usize, ntop: usize, nbase: Option<usize>,
 
 #[kani::proof]
 #[kani::unwind(5)]
-fn c13_linear_revert_step_failed_rule() {
+fn c13_linear_revert_step_failed_rule_cmd() {
     // the Transaction::add_single situation: a rule wrote and failed before add_command
     let seen = revert_step(&[1], 1, 1, Some(1), false);
     kani::cover!(seen.failed_rule, "revert at equal command count with pending writes (failed rule)");
@@ -478,7 +478,7 @@ fn c13_linear_revert_step_nothing_pending() {
 
 #[kani::proof]
 #[kani::unwind(5)]
-fn c13_linear_revert_step_commands() {
+fn c13_linear_revert_step_commands_prior() {
     let seen = revert_step(&[2, 1], 1, 1, Some(2), false);
     kani::cover!(seen.dropped_cmds, "revert drops commands");
     kani::cover!(seen.failed_rule, "failed rule after two commands");
@@ -595,7 +595,7 @@ fn c13_linear_add_command_step_first() {
 
 #[kani::proof]
 #[kani::unwind(5)]
-fn c13_linear_add_command_step() {
+fn c13_linear_add_command_step_third() {
     add_command_step(2, 1);
 }
 
@@ -622,7 +622,7 @@ fn hstep(p: &mut LinearPerspective<NoRead>, m: &mut HModel, snap: &mut (usize, H
         m.m[u.k as usize] = u.v;
         m.pending += 1;
     } else if op == 1 {
-        // add a command (data movement of add_command; the real one is c13_linear_add_command_step)
+        // add a command (data movement of add_command; the real one is c13_linear_add_command_step_third)
         p.commands.push(CommandData {
             id: cmd_id(m.ncmd as u8),
             priority: Priority::Basic(0),
